@@ -411,6 +411,14 @@ func c14Summarise(job c14Job, modelOK bool) gSummary {
 	for _, h := range p.Handles {
 		hist("handle-kind=" + h.Kind)
 	}
+	if cs.HoldMs > 0 {
+		switch {
+		case run.HoldCut != "":
+			hist(fmt.Sprintf("calls-before-close-held-for-ms=%05d/cut-short-by-soft-deadline", cs.HoldMs))
+		case run.Fault == nil:
+			hist(fmt.Sprintf("calls-before-close-held-for-ms=%05d/%s", cs.HoldMs, p.Server))
+		}
+	}
 	v := c14Check(run, job.input())
 	s.Fails = v.fails
 	if run.Fault != nil || len(v.observed) != len(p.Ops) {
@@ -457,7 +465,7 @@ func c14Short(ix []int) any {
 
 func checkC14(c *lib.Ctx) {
 	r := c.R
-	r.Rule = "Small pipelines: d = 1…24 READ/WRITE requests on h = 1…4 handles (read-only, write-only and read-write opens; layouts: all CLOSEs at the end, handle by handle, shuffled; one read in twelve longer than 32768 bytes) followed by the CLOSEs without waiting for any reply, on both servers. Two programs in three also carry handle requests that are neither reads nor writes between the READ/WRITEs and the CLOSE of their handle: FSTAT, FSETSTAT (permissions; not on a read-only server) and, on directory handles (one handle in five), READDIR. Gated cases: every ReadAt/WriteAt (and every call of those other requests) is held; after the expected calls have started and a grace period of 25 ms (again after every completed CLOSE while calls are held) the harness asserts that no Close was entered that the pipeline cannot have reached, then lets the calls return in a chosen order (all feasible orders for d <= 4 (quick) / 6 (thorough), PRNG orders: uniform, fifo, lifo, earliest-held-longest). Unforced cases: nothing is held, every call (Close too) sleeps a PRNG time below 1.5 ms, or not at all. " +
+	r.Rule = "Small pipelines: d = 1…24 READ/WRITE requests on h = 1…4 handles (read-only, write-only and read-write opens; layouts: all CLOSEs at the end, handle by handle, shuffled; one read in twelve longer than 32768 bytes) followed by the CLOSEs without waiting for any reply, on both servers. Two programs in three also carry handle requests that are neither reads nor writes between the READ/WRITEs and the CLOSE of their handle: FSTAT, FSETSTAT (permissions; not on a read-only server) and, on directory handles (one handle in five), READDIR. Gated cases: every ReadAt/WriteAt (and every call of those other requests) is held; after the expected calls have started and a grace period of 25 ms (again after every completed CLOSE while calls are held) the harness asserts that no Close was entered that the pipeline cannot have reached, then lets the calls return in a chosen order (all feasible orders for d <= 4 (quick) / 6 (thorough), PRNG orders: uniform, fifo, lifo, earliest-held-longest). Unforced cases: nothing is held, every call (Close too) sleeps a PRNG time below 1.5 ms, or not at all. Duration: per server, a small pipeline (1…2 handles, 2…8 transfers and handle commands, every call held) and a deep one (3…300 transfers, the calls of the last 1…8 before the CLOSE held) in which — once every call the pipeline can start sits on its gate and the CLOSE waits behind them — the calls are kept there for 7 s (thorough: 7, 35 and 70 s; longer than any plausible timeout constant; a deliberate hold that is not charged to the hang budget and ends when the soft deadline of the run passes), no Close may be entered meanwhile, then the calls return in a chosen order and every other oracle applies; these cases run side by side with the rest. " +
 		"Deep pipelines (generated, not written out): n READ/WRITE requests of 1…8 bytes between two CLOSEs for n = 0…20 and 2^k-1, 2^k, 2^k+1 (k = 5…10 quick, 5…16 thorough) and 767…769, 1535…1537, 3071…3073; one handle, or 2…4 handles closed one after the other with the boundary value as the count since the previous CLOSE or as the running total; gated: only the calls of the last 1…8 requests before each CLOSE are held (all earlier ones return on their own), grace period and chosen return order as above; unforced: sleep / free. Deep pipelines with an FSTAT / FSETSTAT behind every 1st, 2nd, 3rd, 5th or 17th READ/WRITE (10 quick / 150 thorough per server). " +
 		"Server options: every case runs on a server started with one of the 24 (os-backed: ReadOnly x WithAllocator x WithMaxTxPacket absent/32768/65536 x WithServerWorkingDirectory, handles then opened by relative names) resp. 12 (request server: WithRSAllocator x WithRSMaxTxPacket x WithStartDirectory) option combinations, dealt from a shuffled deck per family so that every family of cases meets every combination (read-only servers: read-only opens only); the depths 256 and 512 (thorough: 255, 256, 257, 512 and 65536) are run gated under every combination. Schedules of pipelines of up to 300 requests are also replayed in the Lean pipeline model. " +
 		"Oracles on the global start/finish log: no Close entered while calls of earlier requests are held, 0 earlier reads/writes in flight at every Close entry, none starts later, between the set-up and the last reply the Close of an object is entered exactly as often as the stream holds CLOSE requests for it (no other request closes it), no call on an object of the request server finds the context of its OPEN request cancelled (handler objects record Request.Context() at open time), every request succeeds, final contents, the observed completion order is one the pipeline allows. non-trivial = at least one read/write precedes a CLOSE; distinct by (server, options, program or generator, order or sleep seed)"
@@ -494,6 +502,10 @@ func checkC14(c *lib.Ctx) {
 		grace := 25
 		styles := []string{"uniform", "fifo", "lifo", "first-last", "uniform", "uniform"}
 		layouts := []string{"tail", "grouped", "mixed"}
+		// DURATION. The gated cases below let the held calls go within milliseconds; a barrier that gives up after a
+		// while is seen only when the transfers in front of a CLOSE take longer than that. These cases go first, so
+		// that they run side by side with the rest of the batch (the wall cost of the family is that of its longest hold).
+		jobs = append(jobs, c14LongHoldJobs(c.Rand, thorough, grace)...)
 		for _, server := range []string{"rs", "os"} {
 			// every (h, d)
 			deck := newC14Deck(c.Rand)
@@ -555,6 +567,38 @@ func checkC14(c *lib.Ctx) {
 	if modelOK {
 		c.Compare("c14", lines, impl)
 	}
+}
+
+// c14LongHolds: how long (ms) the last transfers before a CLOSE are kept held — longer than any plausible timeout
+// constant (seconds, half a minute, a minute).
+func c14LongHolds(thorough bool) []int {
+	if thorough {
+		return []int{7000, 35000, 70000}
+	}
+	return []int{7000}
+}
+
+// c14LongHoldJobs: per server and hold length, (a) a small pipeline — one or two handles, 2…8 transfers (and handle
+// commands), every call held, the CLOSEs at the end — and (b) a deep one in which the calls of the last 1…8 transfers
+// before the CLOSE are held; the hold starts when every call the pipeline can start sits on its gate (the CLOSE is
+// then waiting behind them), no Close of an object may be entered while it lasts; afterwards the calls return in a
+// chosen order and the case is judged like every other.
+func c14LongHoldJobs(rng *rand.Rand, thorough bool, grace int) []json.RawMessage {
+	var jobs []json.RawMessage
+	styles := []string{"uniform", "fifo", "lifo", "first-last"}
+	deck := newC14Deck(rng)
+	for _, ms := range c14LongHolds(thorough) {
+		for _, server := range []string{"rs", "os"} {
+			h := 1 + rng.Intn(2)
+			p := c14Program(rng, server, deck.next(server), h, h+1+rng.Intn(8-h), "tail")
+			jobs = append(jobs, gJSON(gCase{Prog: p, Mode: "gated", Order: c02RandomOrder(p, rng, styles[rng.Intn(len(styles))]), Grace: grace, HoldMs: ms, Tag: "long-hold"}))
+			opt := deck.next(server)
+			g := c14Gen{Server: server, Opt: opt, Kinds: c14Kinds(rng, opt, 1), Segs: []int{[]int{3, 9, 40, 300}[rng.Intn(4)]}, Held: 1 + rng.Intn(8), Seed: rng.Int63()}
+			gp, hold := g.expand()
+			jobs = append(jobs, gJSON(c14Job{gCase: gCase{Mode: "gated", Order: randomOrder(c14HeldReqs(gp, hold), rng, styles[rng.Intn(len(styles))]), Grace: grace, HoldMs: ms, Tag: "long-hold-deep"}, Gen: &g}))
+		}
+	}
+	return jobs
 }
 
 // c14DeepJobs generates the deep pipelines of a run.
